@@ -1,4 +1,5 @@
 #!/bin/bash
+ROOT=$(cd "$(dirname "$0")/.." && pwd)
 # mutant.sh <patch.diff> <prop> [<prop>...] : apply a patch to /repo, run the quick checks, undo it
 set -u
 patch=$1; shift
@@ -7,7 +8,7 @@ if ! git diff --quiet; then echo "repo working tree not clean"; exit 2; fi
 git apply "$patch" || { echo "patch does not apply"; exit 2; }
 trap 'git -C /repo checkout -q -- .' EXIT
 for p in "$@"; do
-  out=$(cd /verif && VERIF_EVIDENCE_DIR=/tmp/mutant-evidence VERIF_REPLAY_DIR=/tmp/mutant-replays ./check $p quick 2>&1)
+  out=$(cd "$ROOT" && VERIF_EVIDENCE_DIR=/tmp/mutant-evidence VERIF_REPLAY_DIR=/tmp/mutant-replays ./check $p quick 2>&1)
   rc=$?
   echo "== $p exit=$rc"
   echo "$out" | grep -E "^(VIOLATION|KNOWN|INFRA|  class)" | cut -c1-400 | head -6
